@@ -108,7 +108,7 @@ CLAIMS = {
     ),
     "C17": dict(
         engine="world",
-        text="Lean 4: ownership graph with reference-count semantics (Freed = inductive least fixpoint): with the repaired fair queue, dropping/closing the socket frees every registered connection whatever wakers were armed (dropped_closes) and always frees the accept tasks; the NEGATION for the queue as it was (an armed StreamWaker closes a strong cycle through the transport — reproduced on the real code, repaired by a fix: commit); finding: a pending handshake survives close/drop (known finding D14). World model: Drop/close() empty every table. PARTIAL: OS sockets, tokio scheduling and 'shortly afterwards' are observed, not modelled. Tie: 9 socket types x all 2^5 history prefixes {recv pending, recv delivered, send, peer EOF, pending handshake} x {drop, close()} over scripted pipes whose halves record their own Drop, compared half by half; real listeners (net engine): type x transport x {bound, accepted, traffic, pending handshake} x {close, drop}, and close/drop issued while ANOTHER THREAD holds the fair queue's lock (a slow waker woken by a registering handshake task / by arriving data).",
+        text="Lean 4: ownership graph with reference-count semantics (Freed = inductive least fixpoint): with the repaired fair queue, dropping/closing the socket frees every registered connection whatever wakers were armed (dropped_closes) and always frees the accept tasks; the NEGATION for the queue as it was (an armed StreamWaker closes a strong cycle through the transport — reproduced on the real code, repaired by a fix: commit); with both repairs EVERY connection — registered or still in its handshake — is freed (C17_all_closed); the negation for detached handshake tasks (a stalled peer's connection survived close/drop: finding D14, repaired by a fix: commit). World model: Drop/close() empty every table. PARTIAL: OS sockets, tokio scheduling and 'shortly afterwards' are observed, not modelled. Tie: 9 socket types x all 2^5 history prefixes {recv pending, recv delivered, send, peer EOF, pending handshake} x {drop, close()} over scripted pipes whose halves record their own Drop, compared half by half; real listeners (net engine): type x transport x {bound, accepted, traffic, pending handshake, CONNECTED OUT through connect()} x {close, drop}, and close/drop issued while ANOTHER THREAD holds the fair queue's lock (a slow waker woken by a registering handshake task / by arriving data).",
         note=LEAN_NOTE + "Arc/Drop semantics as modelled by the ownership graph; listeners/OS observed by the net engine where built",
         technique="Lean 4 proof (inductive Freed over the ownership graph; cycle-leak negation) + exhaustive history-prefix correspondence on pipe Drop flags",
     ),
